@@ -11,7 +11,7 @@ CONSTANTS
 
 V(i, p) == [addr |-> "v" \o I2S(i), pk |-> "pk" \o I2S(i), power |-> p, prio |-> 0]
 Params0 == [max_bytes |-> 1048576, max_gas |-> -1, iota |-> 1000, ev_age_blocks |-> 100000, ev_age_dur |-> 48,
-            ev_max_bytes |-> 1000, pk_types |-> <<"ed25519">>, app_version |-> 0]
+            ev_max_bytes |-> 100000, pk_types |-> <<"ed25519">>, app_version |-> 0]
 TI(n, code, data, gw, gu, log, ev, cs, set) ==
   [name |-> n, code |-> code, data |-> data, gw |-> gw, gu |-> gu, log |-> log, info |-> "", events |-> ev, cs |-> cs, set |-> set]
 TxInfo == << TI("a", 0, "da", 1, 1, "la", <<"ea">>, "", <<"s1", "k1", "va">>),
@@ -22,16 +22,24 @@ TxInfo == << TI("a", 0, "da", 1, 1, "la", <<"ea">>, "", <<"s1", "k1", "va">>),
              TI("f", 0, "df", 1, 1, "lf", <<"ef">>, "", <<"s1", "k1", "vf">>) >>
 KV0 == << [store |-> "s1", kvs |-> <<[k |-> "k1", v |-> "v0"], [k |-> "k2", v |-> "v0"]>>],
           [store |-> "s2", kvs |-> <<[k |-> "k1", v |-> "w0"]>>] >>
-B(txs, bbe, ebe, valupd, parupd) == [txs |-> txs, bbe |-> bbe, ebe |-> ebe, valupd |-> valupd, parupd |-> parupd]
+B(txs, bbe, ebe, valupd, parupd) == [txs |-> txs, bbe |-> bbe, ebe |-> ebe, valupd |-> valupd, parupd |-> parupd, ev |-> << >>]
+\* evidence carried by blocks of the full chain
+Dup(id, tvp, vpow, ts) == [ty |-> "dup", id |-> id, common |-> 0, ch |-> 0, byz |-> << >>, tvp |-> tvp, vpow |-> vpow, ts |-> ts, csigs |-> << >>]
+Lca(id, common, ch, byz, tvp, ts, csigs) ==
+  [ty |-> "lca", id |-> id, common |-> common, ch |-> ch, byz |-> byz, tvp |-> tvp, vpow |-> 0, ts |-> ts, csigs |-> csigs]
 \* a chain with transactions, events, a validator-power change (v4: 10 -> 20, effective at
 \* height 4, reorders the set) and a consensus-parameter change (effective at height 4)
 DescFull == [id |-> "c20full", vals0 |-> <<V(1, 10), V(2, 10), V(3, 10), V(4, 10)>>, params0 |-> Params0, kv0 |-> KV0,
              txinfo |-> TxInfo,
              blocks |-> << B(<< >>, << >>, << >>, << >>, << >>),
                            B(<<"a">>, <<"bb2">>, <<"eb2">>, <<[pk |-> "pk4", power |-> 20]>>, << >>),
-                           B(<<"b", "c">>, << >>, << >>, << >>, <<[max_bytes |-> 524288, max_gas |-> 1000]>>),
+                           [B(<<"b", "c">>, << >>, << >>, << >>, <<[max_bytes |-> 524288, max_gas |-> 1000]>>)
+                              EXCEPT !.ev = <<Dup("dv3", 40, 10, 1001)>>],
                            B(<< >>, << >>, <<"eb4">>, << >>, << >>),
-                           B(<<"d", "e", "f">>, <<"bb5">>, << >>, << >>, << >>),
+                           \* a block with light-client-attack evidence AND duplicate-vote evidence
+                           [B(<<"d", "e", "f">>, <<"bb5">>, << >>, << >>, << >>)
+                              EXCEPT !.ev = <<Lca("cb5", 2, 4, <<"v1", "v2">>, 40, 1001, <<"cs5a", "cs5b", "cs5c", "cs5d">>),
+                                              Dup("dv5", 50, 20, 1003)>>],
                            B(<< >>, << >>, << >>, << >>, << >>) >>]
 \* a chain without transactions and events
 DescBare == [id |-> "c20bare", vals0 |-> <<V(1, 10), V(2, 10), V(3, 10)>>, params0 |-> Params0, kv0 |-> KV0,
